@@ -17,6 +17,7 @@ struct Cmo {
 	cands: VecDeque<RC>,
 	under: CrossD,
 	above: CrossD,
+	flat: bool,
 }
 
 /// do two candles have exactly the same source quantity (an exact predicate of the inputs)?
@@ -52,6 +53,7 @@ pub fn make(cfg: &Cfg, c0: &RC) -> Option<Box<dyn IndRef>> {
 		under: CrossD::new(zone),
 		above: CrossD::new(-zone),
 		src,
+		flat: false,
 	}))
 }
 
@@ -66,6 +68,7 @@ impl IndRef for Cmo {
 		// † follows the implementation: the formula is 0/0 on a window without any change; yata's stated
 		// branch gives 0 there. "Every one of the last n changes is exactly zero" is an exact predicate.
 		let flat = (1..=n).all(|i| same_src(&self.cands[i - 1], &self.cands[i], &self.src));
+		self.flat = flat;
 		if flat {
 			return vec![Q::exact(0.0)];
 		}
@@ -98,6 +101,13 @@ impl IndRef for Cmo {
 		let buy = self.under.under(v, -self.zone);
 		let sell = self.above.above(v, self.zone);
 		vec![sig_sign(buy as i32 - sell as i32)]
+	}
+	fn class(&self) -> &'static str {
+		if self.flat {
+			"flat-window"
+		} else {
+			""
+		}
 	}
 	indref!(Cmo);
 }
